@@ -210,6 +210,9 @@ pub enum Op {
     /// `f.find(hay)` / `f.rfind(hay)`; with `via_ref` through `f.as_ref()`
     FinderFind { f: Slot, hay: BufId, via_ref: bool },
     FinderNeedle { f: Slot },
+    /// `f.find(hay)` repeated `times` times on one long-lived finder: every
+    /// answer must equal the first one and that of a fresh finder
+    FinderRepeat { f: Slot, hay: BufId, times: u64 },
     FinderClone { f: Slot, dst: Slot },
     /// replace the finder in `f` by `into_owned()` of it
     FinderOwn { f: Slot },
